@@ -273,9 +273,10 @@ class Resolver:
                     # unknown * 1: the `flag * 1` idiom -> python int / numpy bool->int
                     out.add(Src("pyint?", None, (), f"({core.src(e)})"))
                 elif s.dtype in ("double", "complex128") or (s.dtype in ("int64", "intc", "int_") and other <= {"pyint", "pybool"} and not isinstance(e.op, ast.Div)):
-                    out.add(Src(s.dtype if not ("pyfloat" in other and s.dtype != "complex128") else "double", True, s.shape, f"arith({s.why})"))
+                    # element-wise results are allocated in the memory order of the operand (order 'K')
+                    out.add(Src(s.dtype if not ("pyfloat" in other and s.dtype != "complex128") else "double", s.contig, s.shape, f"arith({s.why})"))
                 elif s.dtype in ("int64", "intc", "int_") and (isinstance(e.op, ast.Div) or "pyfloat" in other):
-                    out.add(Src("double", True, s.shape, f"arith({s.why})"))
+                    out.add(Src("double", s.contig, s.shape, f"arith({s.why})"))
                 else:
                     out.add(Src("?", None, None, f"arith on {s.dtype}"))
             return out
@@ -296,7 +297,12 @@ class Resolver:
                 else:
                     # slicing/indexing an array: dtype kept, contiguity not guaranteed unless leading-axis integer index
                     lead_only = not isinstance(e.slice, (ast.Tuple, ast.Slice))
-                    out.add(Src(s.dtype, s.contig if lead_only else None, None, f"{s.why}[…]"))
+                    contig = s.contig if lead_only else None
+                    if isinstance(e.slice, ast.Tuple) and len(e.slice.elts) >= 2 and isinstance(e.slice.elts[0], ast.Slice) and e.slice.elts[0].lower is None and e.slice.elts[0].upper is None and any(not isinstance(x, ast.Slice) and not (isinstance(x, ast.Constant) and x.value is None) for x in e.slice.elts[1:]):
+                        # x[:, k] is a strided view; x[:, index_array] is a copy laid out with the indexed axis first:
+                        # neither is C-contiguous (for more than one row)
+                        contig = False
+                    out.add(Src(s.dtype, contig, None, f"{s.why}[…]"))
             return out
         if isinstance(e, ast.IfExp):
             return self.resolve(e.body, fn, cls, depth + 1) | self.resolve(e.orelse, fn, cls, depth + 1)
@@ -344,6 +350,8 @@ class Resolver:
                     contig = True
                 elif isinstance(c.args[0], (ast.List, ast.Tuple, ast.ListComp)):
                     contig = True
+                elif s.contig is False and not (isinstance(order, ast.Constant) and order.value in ("C", "F", "A")):
+                    contig = False  # order='K' keeps the layout of the source: a transposed / fancy-indexed source stays non-C
                 else:
                     contig = None  # order='K' keeps the layout of the source
                 out.add(Src(dt, contig, s.shape, f"{f}(…, dtype={dt})"))
